@@ -65,6 +65,7 @@ func init() {
 			obGate(c, "C04.5b", r)
 			obPending(c, "C04.5c", r)
 			obPendingScan(c, "C04.5d", r)
+			obReaderUnaltered(c, "C04.5e", r)
 			obSign(c, "C04.6")
 			ob7 := c.R.Ob("C04.7", "ctrl/clamp-self", "an amount is clamped to zero only under a sign test of that very amount", 2)
 			c.ClampTestsItself(ob7, relInterp)
@@ -85,6 +86,10 @@ func init() {
 			obPushBack(c, "C05.6", r)
 			ob4 := c.R.Ob("C05.4", "ctrl/kept", "kept targets, and only they, are queued under the kept marker", 2)
 			c.KeptOnlyForKept(ob4, r, keptMarker(c))
+			obDescend(c, "C05.8")
+			ob7 := c.R.Ob("C05.7", "ctrl/ordered-stop", "the loop over the clauses of an ordered destination is left early only when nothing is left to distribute", 1)
+			_, _, recv, _ := drawFns(c, ob7)
+			c.OrderedDestinationStopsOnlyWhenEmpty(ob7, recv)
 		},
 	}
 	Registry["C06"] = &Spec{
@@ -98,6 +103,8 @@ func init() {
 			obPanicRun(c, "C06.3")
 			ob5 := c.R.Ob("C06.5", "numtext/N1+N2", "portion text (literal and variable) is converted with explicit base ten, unbounded", 4)
 			c.NumTextIn(ob5, textRels, map[string]string{"conv:internal/parser.parseNumberLiteral:strconv.Atoi": "integer literals are not portions (that site is finding D11 of C13/C14)"})
+			ob7 := c.R.Ob("C06.6", "ctrl/validated", "every successful path through an allotment arm (source or destination) goes through the function that checks that the portions add up to one", 2)
+			c.AllotmentValidatedBeforeSuccess(ob7)
 			ob6 := c.R.Ob("C06.5b", "numtext/scale", "percentage readers scale by ten to the power 2 + number of fraction digits", 0)
 			c.PercentScale(ob6, map[string]bool{relParser: true, relInterp: true})
 		},
@@ -116,6 +123,7 @@ func init() {
 			c.PostingShape(ob2, r, keptMarker(c))
 			c.ReconcilerShape(ob2, r)
 			obPushBack(c, "C07.3", r)
+			obDescend(c, "C07.4")
 		},
 	}
 	Registry["C09"] = &Spec{
@@ -140,6 +148,7 @@ func init() {
 			c.NoFetchFromRunners(ob4, disp, c.P.Named(relInterp, "Store"), "GetBalances")
 			run := c.Fn(ob4, relInterp, "RunProgram")
 			c.CallOrder(ob4, "order:RunProgram:statements-after-fetch", run, reachesAvoiding(c, fetch, onDemand), reachesFn(c, disp), "statements run only after the balances were fetched")
+			obFetchFirst(c, "C09.4d")
 			obCacheMergeOnly(c, "C09.4b")
 			obBatchAlways(c, "C09.4c")
 			obSaveMonotone(c, "C09.5", r)
